@@ -49,6 +49,9 @@ PAIRS = [  # same expression text with different column types, same SQL / differ
     ("SELECT g, count(*) AS c FROM stream GROUP BY g, CountingWindow(2)", "num", "SELECT g, sum(x) AS c FROM stream GROUP BY g, CountingWindow(3)", "num"),
     ("SELECT id, CASE WHEN x > 1 THEN 'a' ELSE 'b' END AS c FROM stream", "num", "SELECT id, CASE WHEN x > 1 THEN 'a' ELSE 'b' END AS c FROM stream", "str"),
     ("SELECT id, x + y AS r, x - y AS q FROM stream", "num", "SELECT id, x + y AS r FROM stream", "mixed"),
+    # one instance spells the parameter of a parameterised aggregate out, the other relies on its default
+    ("SELECT g, percentile(x, 0.5) AS p FROM stream GROUP BY g, CountingWindow(4)", "num", "SELECT g, percentile(x) AS p FROM stream GROUP BY g, CountingWindow(4)", "num"),
+    ("SELECT g, nth_value(x, 2) AS p FROM stream GROUP BY g, CountingWindow(4)", "num", "SELECT g, nth_value(x) AS p FROM stream GROUP BY g, CountingWindow(4)", "num"),
     # two MATCH_RECOGNIZE instances over the same bare column: one never matches by itself (x <= 2), the other one's conditions fail to
     # evaluate on its rows (no column y) while carrying large x
     ("SELECT * FROM stream MATCH_RECOGNIZE (ORDER BY id MEASURES COUNT(*) AS n, LAST(id) AS li PATTERN (A A) DEFINE A AS x > 2)", "lowx",
@@ -105,6 +108,7 @@ def run(tier):
         for pat in pats:
             na = 4 if "Window(3)" not in sqla else 6
             nb = 4 if "Window(3)" not in sqlb else 6
+            if "Window(4)" in sqla: na = nb = 16
             if "MATCH_RECOGNIZE" in sqla:      # process-wide pools are per scheduler thread: long alternating runs make two instances meet there
                 na = nb = 120
                 pat = pat * 40
